@@ -8,6 +8,7 @@ import stat
 import struct
 
 from . import cexec
+from . import wasi as W
 from .wasi import (Agent, AgentDied, Violation, E, wasi_errno_of, ename, IOV, RES, PATHBUF, PATHBUF2, DATA, STATBUF, DIRBUF,
                    CANARY, put_iovs)
 
@@ -63,6 +64,7 @@ class FsExecutor(object):
         self.std_closed = set()
         open(self.stdout_path, 'wb').close()
         open(self.stderr_path, 'wb').close()
+        variant = W.FORCE_VARIANT or variant
         self.agent = Agent(self.base, self.stdin_path, self.stdout_path, self.stderr_path, pages=pages, cwd=self.base, variant=variant)
         self.agent.init([b'prog'], [])
         self.fds = {}          # wasi fd -> dict(kind, rel, mfd, closed, append, pre)
@@ -526,7 +528,7 @@ class FsExecutor(object):
             self.fail('fdstat-failed', 'fd_fdstat_get(%d) failed with %s on a live descriptor whose POSIX counterpart answers fstat' % (fd, ename(r)))
         raw = self.agent.peek(STATBUF, 32)
         mft = 3 if stat.S_ISDIR(mst.st_mode) else 4 if stat.S_ISREG(mst.st_mode) else 2 if stat.S_ISCHR(mst.st_mode) else None
-        flags = struct.unpack('<H', raw[2:4])[0]
+        flags = struct.unpack(self.agent.E + 'H', raw[2:4])[0]
         if mft is not None and raw[0] != mft:
             self.fail('fdstat-type', 'fd_fdstat_get(%d) reports file type %d, fstat of the POSIX descriptor gives %d' % (fd, raw[0], mft))
         if d.get('mfd') is not None and bool(flags & 1) != app:
@@ -558,10 +560,10 @@ class FsExecutor(object):
             mst = os.fstat(d['mfd'])
             raw = self.agent.peek(STATBUF, 64)
             if unstable:
-                ftype, nlink, size = struct.unpack('<B3xIQ', raw[16:32])
+                ftype, nlink, size = struct.unpack(self.agent.E + 'B3xIQ', raw[16:32])
             else:
                 ftype = raw[16]
-                nlink, size = struct.unpack('<QQ', raw[24:40])
+                nlink, size = struct.unpack(self.agent.E + 'QQ', raw[24:40])
             mft = 3 if stat.S_ISDIR(mst.st_mode) else 4 if stat.S_ISREG(mst.st_mode) else 2 if stat.S_ISCHR(mst.st_mode) else \
                 1 if stat.S_ISBLK(mst.st_mode) else 0
             if stat.S_ISCHR(mst.st_mode):
@@ -584,10 +586,10 @@ class FsExecutor(object):
         ft = 3 if stat.S_ISDIR(st.st_mode) else 4 if stat.S_ISREG(st.st_mode) else 7 if stat.S_ISLNK(st.st_mode) else \
             2 if stat.S_ISCHR(st.st_mode) else 1 if stat.S_ISBLK(st.st_mode) else 0
         if unstable:
-            dev, ino, ftype, nlink, size, at, mt, ct = struct.unpack('<QQB3xIQQQQ', raw[:56])
+            dev, ino, ftype, nlink, size, at, mt, ct = struct.unpack(self.agent.E + 'QQB3xIQQQQ', raw[:56])
         else:
-            dev, ino, ftype = struct.unpack('<QQB', raw[:17])
-            nlink, size, at, mt, ct = struct.unpack('<QQQQQ', raw[24:64])
+            dev, ino, ftype = struct.unpack(self.agent.E + 'QQB', raw[:17])
+            nlink, size, at, mt, ct = struct.unpack(self.agent.E + 'QQQQQ', raw[24:64])
         want = (st.st_dev, st.st_ino, ft, st.st_nlink, st.st_size, st.st_mtime_ns, st.st_ctime_ns)
         got = (dev, ino, ftype, nlink, size, mt, ct)
         names = ('dev', 'ino', 'filetype', 'nlink', 'size', 'mtim', 'ctim')
@@ -682,7 +684,7 @@ class FsExecutor(object):
         r = a.call('fd_prestat_get', 0, fd, RES)
         if r != 0:
             self.fail('prestat', 'fd_prestat_get on pre-opened directory %d failed with %s' % (fd, ename(r)))
-        tag, ln = struct.unpack('<II', a.peek(RES, 8))
+        tag, ln = struct.unpack(self.agent.E + 'II', a.peek(RES, 8))
         path = d['path'].encode()
         if tag != 0 or ln != len(path):
             self.fail('prestat', 'fd_prestat_get(%d) reports tag %d length %d, the path %r has length %d' % (fd, tag, ln, path, len(path)))
@@ -891,7 +893,7 @@ class FsExecutor(object):
             pos = 0
             got = 0
             while pos + 24 <= used:
-                d_next, d_ino, namlen, d_type = struct.unpack('<QQIB', raw[pos:pos + 21])
+                d_next, d_ino, namlen, d_type = struct.unpack(self.agent.E + 'QQIB', raw[pos:pos + 21])
                 if pos + 24 + namlen > used:
                     break
                 name = raw[pos + 24:pos + 24 + namlen]
